@@ -18,7 +18,7 @@ TRUSTED = [
     "bytes slicing with negative bounds, bytes.endswith, bytes.find (Model/OutDispPy.lean, Model/OutDisp.lean splitFirst)",
     "the supervisor Logger/Handler/FileHandler/StreamHandler plumbing between `childlog.info(data)` and the file / BoundIO "
     "(exercised by the correspondence runs: the real classes write to a real file)",
-    "the two-layer shape of the record_output model (scanner, then effects of the scanned calls) against the interleaved method: tied by correspondence",
+    "the statement-level control flow of the hand-written models (recordDirect, logData, toggle, stripGo, fpaeLoop, boundWrite) against the methods: tied by correspondence (the driver executes recordDirect, proved equal to the two-layer model the theorems use)",
 ]
 ASSUMPTIONS = [
     "a read returning b'' is the end of the stream (handle_read_event closes the dispatcher); theorems about complete streams "
@@ -176,6 +176,21 @@ def run(ctx):
         if len(bt.cases) > 20000:
             bt.flush('outdisp-symbols')
     bt.flush('outdisp-symbols')
+    if ctx.tier == 'thorough':
+        # longer symbol strings (sampled), still every fragmentation at symbol boundaries
+        for _ in range(ctx.n(0, 1200)):
+            w = [rng.choice('BEPbex') for _ in range(rng.randrange(6, 9))]
+            units = [od.SYMBOLS[s] for s in w]
+            stream = b''.join(units)
+            cfg = Cfg(capture=rng.choice([10, 40]), oev=1, log=1)
+            for cuts in od.all_cuts(len(units)):
+                chunks, p = [], 0
+                for c in cuts + [len(units)]:
+                    chunks.append(b''.join(units[p:c])); p = c
+                bt.one(cfg, stream, [c for c in chunks if c], True, tag=':symbols-long')
+            if len(bt.cases) > 20000:
+                bt.flush('outdisp-symbols-long')
+        bt.flush('outdisp-symbols-long')
     # 4. token-aware random streams x random fragmentations x configurations
     for i in range(ctx.n(1500, 30000)):
         stream = od.gen_stream(rng)
@@ -252,5 +267,5 @@ LEVEL_TEXT = ("scan_refines / feed_refines / run_complete are proved for every d
               "into reads (no bound), over definitions regenerated from dispatchers.py, asynchat_25.py and loggers.py on each run; "
               "the model is run against the real dispatcher on exhaustive small fragmentations and token-aware random streams")
 LEVEL_NOTE = ("trusts Lean's kernel, extract.py's expression translation, CPython bytes.split/slicing/endswith as modelled, the logger "
-              "plumbing; the scanner/effects layering of the model is tied by correspondence only")
+              "plumbing; statement-level control flow of the models is tied by correspondence")
 DESIGN_REF = "DESIGN.md section 6, C08"
